@@ -3,7 +3,7 @@
 From BV Require Import Base.Prelude Model.Block Model.ForkDB Model.Forkable Model.ForkableLookups
   Model.Burst Model.Hub Model.CursorResolver Model.Joining
   Spec.Consumer Spec.Universe Check.Burst_Check Check.C07_Check Spec.C06_Spec Spec.C07_Spec Spec.C09_Spec
-  Spec.C13_Spec Spec.C07_Compose_Spec Spec.C07_Shapes_Spec Spec.C07_More_Spec Spec.C07_TargetUnfixed_Spec
+  Spec.C13_Spec Spec.C07_Compose_Spec Spec.C07_Shapes_Spec Spec.C07_More_Spec Spec.C13_More_Spec Spec.C07_TargetUnfixed_Spec
   Proofs.C07_ComposeCheck Proofs.C07_FullRefuted.
 Local Open Scope N_scope.
 
@@ -81,4 +81,36 @@ Proof.
   split; [exists (na_b 12); split; [vm_compute; tauto|]; split; [reflexivity | vm_compute; discriminate]|].
   split; [exists (na_b 5); split; [vm_compute; tauto | vm_compute; reflexivity]|].
   vm_compute. reflexivity.
+Qed.
+
+(* ------------------------------------------------------------------ the scope hypothesis of c13_stop_target *)
+
+Definition sn_cu : cursor := mkCursor SNew (mkR 14 14) (mkR 15 15) (mkR 6 6).
+Definition sn_c : jcfg := mkJ 2 5 10 2 5 (Some sn_cu) 9 0 0.
+
+Lemma c13_stop_target_scope_needed_proof : C13_stop_target_scope_needed.
+Proof.
+  exists na_U, sn_c, na_w, [], 16, na_canon, [], sn_cu, (na_b 14). cbv zeta.
+  split; [vm_compute; reflexivity|]. split; [vm_compute; reflexivity|].
+  split.
+  { split.
+    - exists []. split; [intros b p []|reflexivity].
+    - intros b Hb. vm_compute in Hb. vm_compute. tauto. }
+  split.
+  { split.
+    - vm_compute. repeat split.
+    - apply (NoDup_map_inv (fun x => x)). rewrite map_id. vm_compute.
+      repeat (constructor; [cbn; intros K; repeat (destruct K as [K|K]; [discriminate|]); exact K|]). constructor. }
+  split; [intros b Hb; unfold na_U; apply in_or_app; left; exact Hb|].
+  split; [apply eventual_tip_b_sound; vm_compute; reflexivity|].
+  split; [reflexivity|]. split; [reflexivity|]. split; [reflexivity|]. split; [reflexivity|].
+  split.
+  { apply Forall_forall. intros b Hb.
+    assert (H : forallb (fun b => bnum b <? file_bound) (filter (fun b => bnum b <? 16) na_canon) = true) by (vm_compute; reflexivity).
+    rewrite forallb_forall in H. apply N.ltb_lt. apply H. exact Hb. }
+  split; [vm_compute; tauto|]. split; [reflexivity|].
+  split; [exists (na_b 6); split; [vm_compute; tauto|]; split; [reflexivity|]; split; [vm_compute; discriminate | intros H; discriminate]|].
+  split; [exists (na_b 5); split; [vm_compute; tauto | vm_compute; reflexivity]|].
+  split; [exists (na_b 9); split; [vm_compute; tauto | reflexivity]|].
+  split; [vm_compute; reflexivity|]. split; vm_compute; reflexivity.
 Qed.
